@@ -304,6 +304,47 @@ def dialConn (s : Suite) (nonce : Nonce) (them : Identity) (closed : Bool)
   | some _ => []
   | none => if closed then [] else msgs.map fun m => (them, m)
 
+/-! ### the message phase (router.go `handleConn`, 459-514) -/
+
+/-- what `Receive` hands to the loop of `handleConn` once the connection is set up -/
+inductive Payload
+  | data (m : Nat)             -- a message of any other registered type
+  /-- a `ServerIdentity` message sent *again*, after set-up: for the loop it is a message like any other
+  (the router reads the peer's identity once, in `receiveServerIdentity` / from the dialled identity) -/
+  | identity (id : Identity)
+  deriving DecidableEq, Repr
+
+/-- one turn of the loop: `none` = `Receive` answered with a recoverable error (a refused frame, C03) -/
+abbrev Frame := Option Payload
+
+/-- what reaches the dispatcher: the identity attached by `packet.ServerIdentity = remote`
+(router.go:504) and the payload -/
+abbrev Dispatch := Identity × Payload
+
+/-- `handleConn`'s loop over whatever arrives after set-up: every envelope gets the identity the
+connection was registered with; nothing a frame contains is consulted for it -/
+def handleConn (remote : Identity) : List Frame → List Dispatch
+  | [] => []
+  | none :: l => handleConn remote l
+  | some p :: l => (remote, p) :: handleConn remote l
+
+/-- the accepting role with the message phase: set-up as in `acceptConn`, then any sequence of frames -/
+def acceptSession (s : Suite) (nonce : Nonce) (validPeer : Identity → Bool) (closed : Bool)
+    (raw : List Cert) (first : First) (frames : List Frame) : List Dispatch :=
+  match verifyPeer s none nonce raw with
+  | some _ => []
+  | none =>
+    match receiveServerIdentity s raw first with
+    | .error _ => []
+    | .ok dst => if validPeer dst && !closed then handleConn dst frames else []
+
+/-- the dialling role with the message phase -/
+def dialSession (s : Suite) (nonce : Nonce) (them : Identity) (closed : Bool)
+    (raw : List Cert) (frames : List Frame) : List Dispatch :=
+  match verifyPeer s (some them.pub) nonce raw with
+  | some _ => []
+  | none => if closed then [] else handleConn them frames
+
 /-! ### the world: honest nodes, an adversary who owns the network -/
 
 /-- who holds what -/
@@ -624,6 +665,41 @@ def step (s : State) (toks : List String) : State × String :=
         | some c => match verifyPeer suite them (.hon 1) [c] with
           | some ch => s!"vrf={ch.name} key=-"
           | none => s!"vrf=ok key={match peerKey suite [c] with | some k => labelOf k | none => "-"}")
+    (s, r.getD "bad-op")
+  | "phase" :: rest =>
+    -- `phase role=<dial|accept> suite=… tlsv=… seq=<item;item;…>`: the peer operated by `a` makes an honest
+    -- handshake for its own key (accepting role: and declares its own identity), then sends the sequence:
+    -- `m` a message, `i:<k>/<f>` a `ServerIdentity` message with the key of k and the deprecated id field of
+    -- f, `x` a frame of an unregistered type.  Answer: for every message and identity message, in order,
+    -- the key attached to it when it reaches its processor
+    let r : Option String := do
+      let m ← kv rest
+      if m.length ≠ 4 then none
+      let role ← get m "role"
+      let suite ← (← get m "suite") |> suiteOf
+      let tlsv ← get m "tlsv"
+      if tlsv ≠ "12" ∧ tlsv ≠ "13" then none
+      let items ← ((← get m "seq").splitOn ";").mapM fun it =>
+        match it.splitOn ":" with
+        | ["m"] => some (some (Payload.data 7))
+        | ["x"] => some none
+        | ["i", kf] => (match kf.splitOn "/" with
+          | [k, f] => do
+            let k ← keyOf k
+            let f ← keyOf f
+            pure (some (Payload.identity ⟨k, f + 1⟩))
+          | _ => none)
+        | _ => none
+      if items.length > 12 then none
+      let cert := (certFor .new 2 12 (.hon 1)).toList
+      let out ← (match role with
+        | "accept" => some (acceptSession suite (.hon 1) (fun _ => true) false cert (.identity ⟨2, 0⟩) items)
+        | "dial" => some (dialSession suite (.hon 1) ⟨2, 0⟩ false cert items)
+        | _ => none)
+      let shown := out.map fun d => match d.2 with
+        | .data _ => "m:" ++ labelOf d.1.pub
+        | .identity _ => "i:" ++ labelOf d.1.pub
+      pure ("hs=ok disp=" ++ (if shown.isEmpty then "-" else ",".intercalate shown))
     (s, r.getD "bad-op")
   | "honestcert" :: rest =>
     -- `honestcert role=<dial|accept> suite=… tlsv=… nonce=<ok|short|none|two>`: what the honest node
